@@ -468,7 +468,8 @@ def _substitution(model: Model, Sr: RuleResult, N: RuleResult, fwd: FuncInfo, ca
     tcls = model.resolve_expr(fwd.module, B[tfm].func)[1]
     f2 = B[fn]
     if not isinstance(f2, ast.FunctionDef):
-        Sr.bad(fwd, br, "the transformed integrand must be a local function of the new variable")
+        # the wrapper is built somewhere else (a method of the transform, a factory): nothing was shown to be wrong
+        Sr.undecided(fwd, br, "cannot find the transformed integrand as a local function of the new variable (it is built by `%s`)" % ast.unparse(f2)[:60])
         return
     targ = f2.args.args[0].arg
     roles = {}
